@@ -118,7 +118,9 @@ def gen_cases(ctx):
                    "progress": [[0.1, "right", 0], [0.5, "foreign", 1], [0.5, "right", 2],
                                 [0.9, "right_total_msg", 3], [1.1, "right_missing", 4], [1.3, "right", 5]]}
     for raise_at in (1, 2):
-        for kind in ("unprintable", "base"):
+        for kind in ("unprintable", "base", "class:TypeError", "class:real_type_error", "class:ValueError", "class:KeyError",
+                     "class:AttributeError", "class:TimeoutError", "class:LookupError", "class:AssertionError",
+                     "class:NotImplementedError", "class:OSError", "class:RecursionError", "class:StopAsyncIteration"):
             yield {"tc": None, "tr": 1.2, "traffic": "none", "cb": True, "raise_at": raise_at, "raise_kind": kind,
                    "progress": [[0.1, "right", 0], [0.5, "right", 2], [0.9, "right_total_msg", 3]]}
     # 3b. the caller's params object has a history: it was used for an earlier request (a retry with the same dict),
@@ -168,6 +170,14 @@ def exec_case(ctx, case: Dict[str, Any]) -> None:
                     raise Unprintable()
                 if case.get("raise_kind") == "base":
                     raise ArithmeticError()   # no arguments
+                if str(case.get("raise_kind", "")).startswith("class:"):
+                    # whatever class of exception a (correctly declared) callback fails with is the callback's failure
+                    import builtins
+                    name = case["raise_kind"].split(":", 1)[1]
+                    if name == "real_type_error":
+                        return progress / total        # total is None for a notification without it: a genuine TypeError
+                    exc_cls = getattr(builtins, name, None) or getattr(asyncio, name)
+                    raise exc_cls("callback failed") if name != "KeyError" else KeyError("k")
                 raise RuntimeError("callback exploded")
 
         if tc == "pre":
